@@ -1132,8 +1132,13 @@ def rt2(ctx):
     r = RuleResult("RT-2", "the renderer's candidate ranking is a stable sort over the sorted cardinal table (ties keep table order)", floor=2)
     lib = ctx.lib
     n = 0
-    for fn in ("asca::seg::Segment::get_as_grapheme", "asca::seg::Segment::get_nearest_grapheme"):
-        b = ctx.fn(lib, fn)
+    roots = ("asca::seg::Segment::get_as_grapheme", "asca::seg::Segment::get_nearest_grapheme")
+    for fn in roots:
+        ctx.fn(lib, fn)
+    # the search may live in helpers / closures of the same module: everything of asca::seg reachable from the two entry points
+    reach = sorted(p for p in lib.reachable(list(roots)) if p.startswith("asca::seg::") and lib.body(p) is not None)
+    for fn in reach:
+        b = lib.body(fn)
         for bi, t in b.calls():
             cp = callee_path(t) or ""
             if "::sort" not in cp:
